@@ -1,0 +1,127 @@
+//go:build verif
+
+package align
+
+// Contracts for property C12 (cleaning), second round: RemoveMajorityCharacterSites.
+// Comments only; compiled (to nothing) only under the build tag "verif".
+// Vocabulary: zz_contracts_verif.go (nrows, cell, wfa, excl, upcnt, occok, c12b_mtot, ...), zz_contracts_clean_verif.go (cs_rule, cs_cut).
+
+// ---- the removal rule of the majority variant ----
+
+// every case-folded character present in column s is excluded by ignore-gaps / ignore-N-or-X
+//@ pure func c12b_allexcl(a *align, ig bool, in bool, s int) bool = forall k :: 0 <= k && k < 256 && upcnt(a, s, k, nrows(a)) > 0 ==> excl(a, ig, in, k)
+// x is a most frequent case-folded character of column s among those not excluded
+//@ pure func c12b_ismaj(a *align, ig bool, in bool, s int, x int) bool = 0 <= x && x < 256 && !excl(a, ig, in, x) && upcnt(a, s, x, nrows(a)) > 0 && (forall k :: 0 <= k && k < 256 && !excl(a, ig, in, k) ==> upcnt(a, s, k, nrows(a)) <= upcnt(a, s, x, nrows(a)))
+// column s qualifies: the count of a majority character against the number of non-excluded rows meets the cutoff rule
+// (a column whose characters are all excluded counts with all its rows: MaxCharStats then reports the first character with nrows occurrences)
+//@ ground func c12b_mhit(a *align, cut real, ig bool, in bool, s int) bool = (c12b_allexcl(a, ig, in, s) && cs_rule(cut, nrows(a), c12b_mtot(a, ig, in, s, nrows(a)))) || (exists x :: c12b_ismaj(a, ig, in, s, x) && cs_rule(cut, upcnt(a, s, x, nrows(a)), c12b_mtot(a, ig, in, s, nrows(a))))
+// number of qualifying columns below k
+//@ pure func c12b_mnhit(a *align, cut real, ig bool, in bool, k int) int = (k <= 0 ? 0 : c12b_mnhit(a, cut, ig, in, k-1) + (c12b_mhit(a, cut, ig, in, k-1) ? 1 : 0))
+// column k is actually removed: it qualifies and, in 'ends' mode, lies in the leading run [0,fc] or in the trailing run [lc,L)
+//@ pure func c12b_mrm(a *align, cut real, ig bool, in bool, ends bool, fc int, lc int, k int) bool = c12b_mhit(a, cut, ig, in, k) && (!ends || k >= lc || k <= fc)
+// number of removed columns below k
+//@ pure func c12b_mnrm(a *align, cut real, ig bool, in bool, ends bool, fc int, lc int, k int) int = (k <= 0 ? 0 : c12b_mnrm(a, cut, ig, in, ends, fc, lc, k-1) + (c12b_mrm(a, cut, ig, in, ends, fc, lc, k-1) ? 1 : 0))
+
+// the same over the state at function entry, with the cutoff clamped as documented (a cutoff outside [0,1] counts as 0)
+//@ pure func c12b_MH(a *align, cutoff real, ig bool, in bool, k int) bool = old(c12b_mhit(a, cs_cut(cutoff), ig, in, k))
+//@ pure func c12b_MN(a *align, cutoff real, ig bool, in bool, k int) int = old(c12b_mnhit(a, cs_cut(cutoff), ig, in, k))
+//@ pure func c12b_MR(a *align, cutoff real, ig bool, in bool, ends bool, fc int, lc int, k int) bool = old(c12b_mrm(a, cs_cut(cutoff), ig, in, ends, fc, lc, k))
+//@ pure func c12b_MNR(a *align, cutoff real, ig bool, in bool, ends bool, fc int, lc int, k int) int = old(c12b_mnrm(a, cs_cut(cutoff), ig, in, ends, fc, lc, k))
+// tr lists the qualifying columns below n by rank: column k qualifies iff it sits at position "number of qualifying columns below k"
+//@ pure func c12b_mtrok(a *align, cutoff real, ig bool, in bool, tr []int, n int) bool = forall k :: 0 <= k && k < n ==> 0 <= c12b_MN(a, cutoff, ig, in, k) && (c12b_MH(a, cutoff, ig, in, k) <==> (c12b_MN(a, cutoff, ig, in, k) < len(tr) && tr[c12b_MN(a, cutoff, ig, in, k)] == k))
+// rm lists the removed columns below n by rank, kept the others
+//@ pure func c12b_mrmok(a *align, cutoff real, ig bool, in bool, ends bool, fc int, lc int, rm []int, n int) bool = forall k :: 0 <= k && k < n && c12b_MR(a, cutoff, ig, in, ends, fc, lc, k) ==> 0 <= c12b_MNR(a, cutoff, ig, in, ends, fc, lc, k) && c12b_MNR(a, cutoff, ig, in, ends, fc, lc, k) < len(rm) && rm[c12b_MNR(a, cutoff, ig, in, ends, fc, lc, k)] == k
+//@ pure func c12b_mkeptok(a *align, cutoff real, ig bool, in bool, ends bool, fc int, lc int, kept []int, n int) bool = forall k :: 0 <= k && k < n && !c12b_MR(a, cutoff, ig, in, ends, fc, lc, k) ==> 0 <= k - c12b_MNR(a, cutoff, ig, in, ends, fc, lc, k) && k - c12b_MNR(a, cutoff, ig, in, ends, fc, lc, k) < len(kept) && kept[k - c12b_MNR(a, cutoff, ig, in, ends, fc, lc, k)] == k
+
+// ---- RemoveCharacterSites: the same vocabulary over cs_hit (zz_contracts_clean_verif.go) ----
+
+// number of qualifying columns below k
+//@ pure func c12b_snhit(a *align, c []uint8, cutoff real, ic bool, ig bool, in bool, rev bool, k int) int = (k <= 0 ? 0 : c12b_snhit(a, c, cutoff, ic, ig, in, rev, k-1) + (cs_hit(a, c, cutoff, ic, ig, in, rev, k-1) ? 1 : 0))
+// column k is actually removed: it qualifies and, in 'ends' mode, lies in the leading run [0,fc] or in the trailing run [lc,L)
+//@ pure func c12b_srm(a *align, c []uint8, cutoff real, ic bool, ig bool, in bool, rev bool, ends bool, fc int, lc int, k int) bool = cs_hit(a, c, cutoff, ic, ig, in, rev, k) && (!ends || k >= lc || k <= fc)
+// number of removed columns below k
+//@ pure func c12b_snrm(a *align, c []uint8, cutoff real, ic bool, ig bool, in bool, rev bool, ends bool, fc int, lc int, k int) int = (k <= 0 ? 0 : c12b_snrm(a, c, cutoff, ic, ig, in, rev, ends, fc, lc, k-1) + (c12b_srm(a, c, cutoff, ic, ig, in, rev, ends, fc, lc, k-1) ? 1 : 0))
+
+// the same over the state at function entry (cs_hit clamps the cutoff itself)
+//@ pure func c12b_SH(a *align, c []uint8, cutoff real, ic bool, ig bool, in bool, rev bool, k int) bool = old(cs_hit(a, c, cutoff, ic, ig, in, rev, k))
+//@ pure func c12b_SN(a *align, c []uint8, cutoff real, ic bool, ig bool, in bool, rev bool, k int) int = old(c12b_snhit(a, c, cutoff, ic, ig, in, rev, k))
+//@ pure func c12b_SR(a *align, c []uint8, cutoff real, ic bool, ig bool, in bool, rev bool, ends bool, fc int, lc int, k int) bool = old(c12b_srm(a, c, cutoff, ic, ig, in, rev, ends, fc, lc, k))
+//@ pure func c12b_SNR(a *align, c []uint8, cutoff real, ic bool, ig bool, in bool, rev bool, ends bool, fc int, lc int, k int) int = old(c12b_snrm(a, c, cutoff, ic, ig, in, rev, ends, fc, lc, k))
+// tr lists the qualifying columns below n by rank: column k qualifies iff it sits at position "number of qualifying columns below k"
+//@ pure func c12b_strok(a *align, c []uint8, cutoff real, ic bool, ig bool, in bool, rev bool, tr []int, n int) bool = forall k :: 0 <= k && k < n ==> 0 <= c12b_SN(a, c, cutoff, ic, ig, in, rev, k) && (c12b_SH(a, c, cutoff, ic, ig, in, rev, k) <==> (c12b_SN(a, c, cutoff, ic, ig, in, rev, k) < len(tr) && tr[c12b_SN(a, c, cutoff, ic, ig, in, rev, k)] == k))
+// rm lists the removed columns below n by rank, kept the others
+//@ pure func c12b_srmok(a *align, c []uint8, cutoff real, ic bool, ig bool, in bool, rev bool, ends bool, fc int, lc int, rm []int, n int) bool = forall k :: 0 <= k && k < n && c12b_SR(a, c, cutoff, ic, ig, in, rev, ends, fc, lc, k) ==> 0 <= c12b_SNR(a, c, cutoff, ic, ig, in, rev, ends, fc, lc, k) && c12b_SNR(a, c, cutoff, ic, ig, in, rev, ends, fc, lc, k) < len(rm) && rm[c12b_SNR(a, c, cutoff, ic, ig, in, rev, ends, fc, lc, k)] == k
+//@ pure func c12b_skeptok(a *align, c []uint8, cutoff real, ic bool, ig bool, in bool, rev bool, ends bool, fc int, lc int, kept []int, n int) bool = forall k :: 0 <= k && k < n && !c12b_SR(a, c, cutoff, ic, ig, in, rev, ends, fc, lc, k) ==> 0 <= k - c12b_SNR(a, c, cutoff, ic, ig, in, rev, ends, fc, lc, k) && k - c12b_SNR(a, c, cutoff, ic, ig, in, rev, ends, fc, lc, k) < len(kept) && kept[k - c12b_SNR(a, c, cutoff, ic, ig, in, rev, ends, fc, lc, k)] == k
+
+
+//@ func (*align).RemoveMajorityCharacterSites
+//@   props C12
+//@   requires wfa(a)
+// first / last: lengths of the maximal qualifying prefix / suffix
+//@   ensures 0 <= first && first <= max(old(a.length), 0) && (forall k :: 0 <= k && k < first ==> c12b_MH(a, cutoff, ignoreGaps, ignoreNs, k)) && (first < old(a.length) ==> !c12b_MH(a, cutoff, ignoreGaps, ignoreNs, first))
+//@   ensures 0 <= last && last <= max(old(a.length), 0) && (forall k :: old(a.length) - last <= k && k < old(a.length) ==> c12b_MH(a, cutoff, ignoreGaps, ignoreNs, k)) && (last < old(a.length) ==> !c12b_MH(a, cutoff, ignoreGaps, ignoreNs, old(a.length) - last - 1))
+// rm: the columns actually removed (qualifying; in ends mode only those of the leading / trailing run), by rank; kept: the others, by rank
+//@   ensures len(rm) == c12b_MNR(a, cutoff, ignoreGaps, ignoreNs, ends, first - 1, old(a.length) - last, old(a.length)) && len(kept) == max(old(a.length), 0) - len(rm)
+//@   ensures c12b_mrmok(a, cutoff, ignoreGaps, ignoreNs, ends, first - 1, old(a.length) - last, rm, old(a.length))
+//@   ensures c12b_mkeptok(a, cutoff, ignoreGaps, ignoreNs, ends, first - 1, old(a.length) - last, kept, old(a.length))
+// the alignment: well-formed, same rows / names / order, cached length reduced by the number of columns actually removed
+//@   ensures wfa(a) && a.length == old(a.length) - len(rm)
+// the result is the selection of the kept columns: column j of the result is column kept[j] of the input
+//@   ensures forall r, j, K :: 0 <= r && r < nrows(a) && 0 <= j && j < len(kept) && K == kept[j] ==> cell(a, r, j) == old(cell(a, r, K))
+//@   ensures nrows(a) == old(nrows(a))
+//@   ensures forall r :: 0 <= r && r < nrows(a) ==> row(a, r) == old(row(a, r)) && rowname(a, r) == old(rowname(a, r))
+//@   assert_at sort.Ints 1 : forall i :: 0 <= i && i + 1 < len(arg0) ==> arg0[i] <= arg0[i+1]
+//@   modifies a.length, field(seq.sequence)
+//@   loop 1
+//@     invariant length == a.length && 0 <= site && site <= max(length, 0) && lastcontinuous <= length
+//@     invariant len(occur) == max(length, 0) && len(total) == max(length, 0) && fresh(occur) && fresh(total) && allocated(occur) && allocated(total) && base(occur) != base(total)
+//@     invariant forall s :: 0 <= s && s < length ==> occok(a, occur, s, ignoreGaps, ignoreNs) && total[s] == old(c12b_mtot(a, ignoreGaps, ignoreNs, s, nrows(a)))
+//@     invariant -1 <= firstcontinuous && firstcontinuous < site
+//@     invariant forall k :: 0 <= k && k <= firstcontinuous ==> c12b_MH(a, cutoff, ignoreGaps, ignoreNs, k)
+//@     invariant firstcontinuous + 1 < site ==> !c12b_MH(a, cutoff, ignoreGaps, ignoreNs, firstcontinuous + 1)
+//@     invariant (lastcontinuous == length && (site == 0 || !c12b_MH(a, cutoff, ignoreGaps, ignoreNs, site - 1))) || (0 <= lastcontinuous && lastcontinuous < site && (forall k :: lastcontinuous <= k && k < site ==> c12b_MH(a, cutoff, ignoreGaps, ignoreNs, k)) && (lastcontinuous == 0 || !c12b_MH(a, cutoff, ignoreGaps, ignoreNs, lastcontinuous - 1)))
+//@     invariant fresh(toremove) && allocated(toremove) && base(toremove) != base(occur) && base(toremove) != base(total) && base(toremove) != base(kept) && base(toremove) != base(rm) && len(kept) == 0 && len(rm) == 0 && fresh(kept) && fresh(rm) && allocated(kept) && allocated(rm) && base(kept) != base(rm)
+//@     invariant len(toremove) == c12b_MN(a, cutoff, ignoreGaps, ignoreNs, site) && 0 <= len(toremove) && len(toremove) <= site
+//@     invariant forall j :: 0 <= j && j < len(toremove) ==> 0 <= toremove[j] && toremove[j] < site
+//@     invariant forall j :: 0 <= j && j + 1 < len(toremove) ==> toremove[j] < toremove[j+1]
+//@     invariant c12b_mtrok(a, cutoff, ignoreGaps, ignoreNs, toremove, site)
+//@     decreases length - site
+//@   loop 2
+//@     invariant 0 <= seq && seq <= nrows(a) && a.length == old(a.length) && length == a.length && -1 <= firstcontinuous && lastcontinuous <= length
+//@     invariant forall r :: seq <= r && r < nrows(a) ==> sameslice(row(a, r).sequence, old(row(a, r).sequence))
+//@     invariant forall r :: 0 <= r && r < seq ==> len(row(a, r).sequence) == a.length - c12b_MNR(a, cutoff, ignoreGaps, ignoreNs, ends, firstcontinuous, lastcontinuous, a.length)
+//@     invariant fresh(toremove) && allocated(toremove) && fresh(kept) && fresh(rm) && allocated(kept) && allocated(rm) && base(toremove) != base(kept) && base(toremove) != base(rm) && base(kept) != base(rm)
+//@     invariant len(toremove) == c12b_MN(a, cutoff, ignoreGaps, ignoreNs, a.length) && 0 <= len(toremove) && len(toremove) <= max(a.length, 0)
+//@     invariant c12b_mtrok(a, cutoff, ignoreGaps, ignoreNs, toremove, a.length)
+//@     invariant forall r :: 0 <= r && r < seq ==> fresh(row(a, r).sequence) && allocated(row(a, r).sequence)
+//@     invariant forall r, j, K :: 0 <= r && r < seq && 0 <= j && j < len(kept) && K == kept[j] ==> cell(a, r, j) == old(cell(a, r, K))
+//@     invariant seq == 0 ==> nbremoved == 0 && len(kept) == 0 && len(rm) == 0
+//@     invariant seq > 0 ==> nbremoved == c12b_MNR(a, cutoff, ignoreGaps, ignoreNs, ends, firstcontinuous, lastcontinuous, a.length) && len(rm) == nbremoved && len(kept) == a.length - nbremoved && 0 <= nbremoved && nbremoved <= a.length
+//@     invariant seq > 0 ==> c12b_mrmok(a, cutoff, ignoreGaps, ignoreNs, ends, firstcontinuous, lastcontinuous, rm, a.length)
+//@     invariant seq > 0 ==> c12b_mkeptok(a, cutoff, ignoreGaps, ignoreNs, ends, firstcontinuous, lastcontinuous, kept, a.length)
+//@     decreases nrows(a) - seq
+//@   loop 3
+//@     invariant 0 <= i && i <= a.length && 0 <= seq && seq < nrows(a) && a.length == old(a.length) && length == a.length && -1 <= firstcontinuous && lastcontinuous <= length
+//@     invariant nbpotentialremove == c12b_MN(a, cutoff, ignoreGaps, ignoreNs, i) && 0 <= nbpotentialremove && nbpotentialremove <= len(toremove)
+//@     invariant nbremoved == c12b_MNR(a, cutoff, ignoreGaps, ignoreNs, ends, firstcontinuous, lastcontinuous, i) && 0 <= nbremoved && nbremoved <= i
+//@     invariant fresh(newseq) && len(newseq) == i - nbremoved
+//@     invariant forall r :: seq <= r && r < nrows(a) ==> sameslice(row(a, r).sequence, old(row(a, r).sequence))
+//@     invariant forall r :: 0 <= r && r < seq ==> len(row(a, r).sequence) == a.length - c12b_MNR(a, cutoff, ignoreGaps, ignoreNs, ends, firstcontinuous, lastcontinuous, a.length)
+//@     invariant fresh(toremove) && allocated(toremove) && fresh(kept) && fresh(rm) && allocated(kept) && allocated(rm) && base(toremove) != base(kept) && base(toremove) != base(rm) && base(kept) != base(rm)
+//@     invariant len(toremove) == c12b_MN(a, cutoff, ignoreGaps, ignoreNs, a.length) && 0 <= len(toremove) && len(toremove) <= max(a.length, 0)
+//@     invariant c12b_mtrok(a, cutoff, ignoreGaps, ignoreNs, toremove, a.length)
+//@     invariant allocated(newseq) && (forall r :: 0 <= r && r < seq ==> fresh(row(a, r).sequence) && allocated(row(a, r).sequence) && base(row(a, r).sequence) != base(newseq))
+//@     invariant forall r, j, K :: 0 <= r && r < seq && 0 <= j && j < len(kept) && K == kept[j] ==> cell(a, r, j) == old(cell(a, r, K))
+//@     invariant forall j, K :: 0 <= j && j < len(newseq) && j < len(kept) && K == kept[j] ==> newseq[j] == old(cell(a, seq, K))
+//@     invariant seq == 0 ==> len(rm) == nbremoved && len(kept) == i - nbremoved
+//@     invariant seq > 0 ==> len(rm) == c12b_MNR(a, cutoff, ignoreGaps, ignoreNs, ends, firstcontinuous, lastcontinuous, a.length) && len(kept) == a.length - len(rm)
+//@     invariant c12b_mrmok(a, cutoff, ignoreGaps, ignoreNs, ends, firstcontinuous, lastcontinuous, rm, (seq == 0 ? i : a.length))
+//@     invariant c12b_mkeptok(a, cutoff, ignoreGaps, ignoreNs, ends, firstcontinuous, lastcontinuous, kept, (seq == 0 ? i : a.length))
+//@     decreases a.length - i
+
+// on ASCII residues the exclusion test on the case-folded residue (what MaxCharStats does, c12b_mtot) is the exclusion test on
+// the residue itself (what RemoveCharacterSites / RemoveCharacterSeqs do, cs_tot / cq_tot): gap, or N/n (nucleotides), X/x (proteins)
+//@ lemma c12b_excl_casefold(a *align, ig bool, in bool, c int)
+//@   props C12
+//@   requires 0 <= c && c < 128
+//@   ensures excl(a, ig, in, up8(c)) == excl(a, ig, in, c)
